@@ -204,9 +204,25 @@ def adder_summary(prog: Program, c: ClassInfo, meth: str):
     if f is None:
         return None
     sn = f.self_name or "self"
-    for n in walk_no_nested(f.node):
-        if isinstance(n, ast.Call) and isinstance(n.func, ast.Attribute) and n.func.attr == "append" and is_self_attr(n.func.value, self_name=sn) and len(n.args) == 1:
-            out.setdefault(n.func.value.attr, []).append(n.args[0])
+    # every value that can reach an append on some path, locals substituted and conditional expressions split
+    seen = set()
+    try:
+        paths = path_returns(f.node)
+    except AnalysisError:
+        paths = []
+    for pe in paths:
+        for e in pe.effects:
+            for n in ast.walk(e):
+                if isinstance(n, ast.Call) and isinstance(n.func, ast.Attribute) and n.func.attr == "append" and is_self_attr(n.func.value, self_name=sn) and len(n.args) == 1:
+                    for _, v in split_ifexp(n.args[0]):
+                        k = (n.func.value.attr, norm(v))
+                        if k not in seen:
+                            seen.add(k)
+                            out.setdefault(n.func.value.attr, []).append(v)
+    if not paths:
+        for n in walk_no_nested(f.node):
+            if isinstance(n, ast.Call) and isinstance(n.func, ast.Attribute) and n.func.attr == "append" and is_self_attr(n.func.value, self_name=sn) and len(n.args) == 1:
+                out.setdefault(n.func.value.attr, []).append(n.args[0])
     return f, out
 
 
